@@ -603,7 +603,13 @@ func monoNow() int64 {
 }
 
 func linClient(p persistence.Persistence, client int, r *rand.Rand, n int, keys []string, emit func(linRec)) {
+	// every user of the database initialises it first, as each fan controller does when it starts - next to the
+	// controllers that are already loading and saving - and now and then again (a controller restarting)
+	_ = p.Init()
 	for i := 0; i < n; i++ {
+		if r.Intn(12) == 0 {
+			_ = p.Init()
+		}
 		key := keys[r.Intn(len(keys))]
 		kind, id := strings.SplitN(key, "/", 2)[0], strings.SplitN(key, "/", 2)[1]
 		rec := linRec{Client: client, Key: key}
